@@ -850,6 +850,7 @@ func corpusValues() []struct {
 		{"pred-id-anchor-marker", immOf("a\"@[b")},
 		{"pred-id-space", immOf("x y")},
 		{"pred-id-nonascii", tmpOf("é\xff\u00a0\\", t0)},
+		{"pred-anchor-zone-seconds", tmpOf("x", time.Date(1900, 1, 1, 12, 0, 0, 0, time.FixedZone("LMT", 1172)))},
 		{"lit-text-escapes-path", litOf(literal.Text, "C:\\new\\table")},
 		{"lit-text-escapes-2", litOf(literal.Text, "a\\\\b")},
 		{"lit-text-escapes-u", litOf(literal.Text, "caf\\u00e9 \\x41 \\101")},
